@@ -3,16 +3,18 @@ pub mod harness;
 pub mod js;
 pub mod kernels;
 pub mod rng;
+pub mod seams;
 pub mod props {
     pub mod c06;
     pub mod c07;
     pub mod c08;
     pub mod c09;
     pub mod c10;
+    pub mod c16;
 }
 
 use harness::Prop;
 
 pub fn props() -> Vec<&'static Prop> {
-    vec![&props::c06::PROP, &props::c07::PROP, &props::c08::PROP, &props::c09::PROP, &props::c10::PROP]
+    vec![&props::c06::PROP, &props::c07::PROP, &props::c08::PROP, &props::c09::PROP, &props::c10::PROP, &props::c16::PROP]
 }
